@@ -6,6 +6,7 @@ layout `wpsParts`/`locColumns`/`wpsLoc` and expands them with `expandSlice`.
 import Dtaiverif.Proofs.Wps
 import Dtaiverif.Proofs.Compact
 import Dtaiverif.Proofs.CostInst
+import Dtaiverif.Generated.LayoutPlan
 
 namespace Dtai
 variable {α : Type} [LinearOrderedAddCommMonoidWithTop α]
@@ -89,5 +90,90 @@ theorem C04_expand_cell (p : Parts) (l1 l2 psi1b psi2b : Nat) (wps : Array α) (
 /- non-vacuity -/
 example : (wpsParts 4 4 2).ri2 = 2 ∧ (wpsParts 4 4 2).ri3 = 3 ∧ (wpsParts 4 4 2).width = 5 := by decide
 example : wpsLoc (wpsParts 4 4 2) 4 4 3 = some 22 := by decide
+
+/-! ### the layout functions of the C source are the transcribed ones
+
+`Generated/LayoutPlan.lean` is re-extracted from `dd_dtw.c` on every run (translate/c_layout.py): the statements
+of `dtw_wps_parts` (band geometry) and `dtw_wps_loc_columns` (stored column range and offset of every row), in
+source order. `wpsParts` and `locColumns` of `Model/Compact.lean` are the closed forms of exactly these statements
+(validated against the compiled functions by the correspondence run); any edit of the two C functions changes the
+extracted lists and breaks this obligation. -/
+
+def expectedLayoutFns : List Generated.LayoutFn := [
+  { name := "dtw_wps_parts", params := "idx_t l1, idx_t l2, DTWSettings * settings",
+    stmts := ["parts.window = settings->window",
+      "if l1 > l2",
+      "parts.ldiff = l1 - l2",
+      "parts.ldiffr = parts.ldiff",
+      "parts.ldiffc = 0",
+      "else",
+      "parts.ldiff = l2 - l1",
+      "parts.ldiffr = 0",
+      "parts.ldiffc = parts.ldiff",
+      "if parts.window == 0",
+      "parts.window = MAX(l1, l2)",
+      "parts.width = l2 + 1",
+      "else",
+      "parts.window = MIN(parts.window, MAX(l1, l2))",
+      "parts.width = MIN(l2 + 1, parts.ldiff + 2*parts.window + 1)",
+      "parts.overlap_left_ri = MIN(parts.window + parts.ldiffr, l1 + 1)",
+      "parts.overlap_right_ri = 0",
+      "if (parts.window + parts.ldiffr) <= l1",
+      "parts.overlap_right_ri = MAX(l1 + 1 - parts.window - parts.ldiffr, 0)",
+      "parts.length = (l1 + 1) * parts.width",
+      "parts.ri1 = MIN(l1, MIN(parts.overlap_left_ri, parts.overlap_right_ri))",
+      "parts.ri2 = MIN(l1, parts.overlap_left_ri)",
+      "parts.ri3 = MIN(l1, MAX(parts.overlap_left_ri, parts.overlap_right_ri))",
+      "return parts"] },
+  { name := "dtw_wps_loc_columns", params := "DTWWps* p, idx_t r, idx_t *cb, idx_t *ce, idx_t l1, idx_t l2",
+    stmts := ["ri_width = p->width",
+      "ri_width = p->width",
+      "min_ci = 0",
+      "max_ci = p->window + p->ldiffc + 1",
+      "for ri=1; ri<p->ri1+1; ri++",
+      "if ri == r",
+      "*cb = min_ci",
+      "*ce = max_ci",
+      "return ri_width",
+      "max_ci++",
+      "ri_width += p->width",
+      "min_ci = 0",
+      "max_ci = l2 + 1",
+      "for ri=p->ri1+1; ri<p->ri2+1; ri++",
+      "if ri == r",
+      "*cb = min_ci",
+      "*ce = max_ci",
+      "return ri_width",
+      "ri_width += p->width",
+      "min_ci = 1",
+      "max_ci = 1 + 2 * p->window - 1 + p->ldiff + 1",
+      "for ri=p->ri2+1; ri<p->ri3+1; ri++",
+      "if ri == r",
+      "*cb = min_ci",
+      "*ce = max_ci",
+      "return ri_width",
+      "min_ci++",
+      "max_ci++",
+      "ri_width += p->width",
+      "min_ci = MAX(0, p->ri3 + 1 - p->window - p->ldiffr)",
+      "max_ci = l2 + 1",
+      "wpsi_start = 2",
+      "if p->ri2 == p->ri3",
+      "wpsi_start = min_ci + 1",
+      "else",
+      "min_ci = 1 + p->ri3 - p->ri2",
+      "for ri=p->ri3+1; ri<l1+1; ri++",
+      "wpsi = wpsi_start - 1",
+      "if ri == r",
+      "*cb = min_ci",
+      "*ce = max_ci",
+      "return ri_width + wpsi",
+      "wpsi_start++",
+      "min_ci++",
+      "ri_width += p->width",
+      "return 0"] }
+]
+
+theorem C04_layout_source : Generated.layoutFns = expectedLayoutFns := by decide
 
 end Dtai
